@@ -178,13 +178,15 @@ def pushStore (cap : Nat) (store : List Nat) (p : Nat) : List Nat :=
 so the property (C04: "presents the ID of a buffered event") does not say what is replayed. -/
 def candidates (auto : Bool) (okLog store : List Nat) (last : String) : Option (List Nat) :=
   if last == "-" then some [] else
-  if last == "x" then (if auto then none else some []) else
+  -- never issued in either mode: "x" unparsable text, "h" 2^64-1, "g" 2^63
+  if last == "x" || last == "h" || last == "g" then some [] else
   let k := numAfter last 1
   let p? : Option Nat := if auto then okLog[k]? else some k
   match p? with
   | some p => if store.contains p then some ((store.dropWhile (· != p)).drop 1)
               else if auto then none else (if okLog.contains p then none else some [])
-  | none => if auto then none else some []
+  -- automatic ID k with k ≥ the number of accepted Puts so far: not issued (yet) when Replay ran
+  | none => some []
 
 structure Obs where
   log : List Nat := []
